@@ -103,9 +103,20 @@ def callee_from_clauses(name, params, requires, ensures, results, ghosts=None, r
     rebinds: name -> ('mat', dims...): names that the callee re-binds before it returns (e.g. `G = binarize(G, copy=True)`): in the ensures
     clauses they denote the callee's local value at return, modelled as a fresh matrix about which only the ensures clauses speak, while
     arg('G') denotes the actual argument."""
+    def _free_names(src):
+        tree = ast.parse(src, mode='eval')
+        bound = {a.arg for n_ in ast.walk(tree) if isinstance(n_, ast.Lambda) for a in n_.args.args}
+        return {n_.id for n_ in ast.walk(tree) if isinstance(n_, ast.Name)} - bound
+
     def stub(eng, st, args, kw, node):
         if kw or len(args) != len(params):
             raise OutOfSubset('call of %s with keywords / wrong arity' % name)
+        # capture guard: a clause of the callee that mentions one of ITS locals must not be read with a variable of the caller of the same name
+        declared = set(params) | set(rebinds or {}) | set(ghosts or {}) | set(fresh_ghosts or ()) | set(core.SPEC_BUILTINS) | {'INF', 'n0', 'True', 'False', 'None', 'np'}
+        for cname, src in list(requires) + list(ensures):
+            for nm in _free_names(src) - declared:
+                if nm in st.env:
+                    raise ContractError('stub of %s: clause `%s` mentions `%s`, a local of the callee that is not declared in rebinds, while the caller has a variable of that name' % (name, cname, nm))
         allnames = list(params) + [k for k in (rebinds or {}) if k not in params]
         saved_env = {k: st.env[k] for k in allnames if k in st.env}
         missing_env = [k for k in params if k not in st.env]
